@@ -586,3 +586,28 @@ def write_evidence(pid, tier, seed, level, coverage, wall, violations, assumptio
         json.dump(ev, f, indent=1)
     os.replace(tmp, os.path.join(VERIF, 'evidence', pid + '.json'))
     return ev
+
+
+# ---------------------------------------------------------------------------------------------------------------
+# declarative meaning (Meaning.tla): per (workflow, outcome vector) the set of possible results and of steps that may run
+
+def meaning(cases, work, timeout_s=900, workers=4):
+    """cases: list of {'wf': stripped wf, 'oc': {...}}. Returns (ok, [ {'results': set, 'mayrun': set} ], stats, out)"""
+    d = tempfile.mkdtemp(prefix='meaning-', dir=work)
+    path = os.path.join(d, 'mcases.json')
+    with open(path, 'w') as f:
+        json.dump(cases, f)
+    cfg = 'SPECIFICATION Spec\nCONSTANT CaseFile = "mcases.json"\nCONSTRAINT Export\nINVARIANT TypeOK\nCHECK_DEADLOCK FALSE\n'
+    rc, out, td = tlc(SPEC, 'Meaning', cfg, work, timeout_s=timeout_s, workers=workers, copy=[path], java_opts='-Xss64m')
+    res = [{'results': set(), 'mayrun': set()} for _ in cases]
+    for line in out.splitlines():
+        m = re.match(r'<<"MEANING", (\d+), "([^"]*)", "(.*)">>$', line.strip())
+        if m:
+            i = int(m.group(1)) - 1
+            res[i]['results'].add(m.group(2))
+            res[i]['mayrun'] |= set(json.loads(m.group(3).encode().decode('unicode_escape')))
+    ok = rc == 0 and all(r['results'] for r in res)
+    st = tlc_stats(out)
+    shutil.rmtree(td, ignore_errors=True)
+    shutil.rmtree(d, ignore_errors=True)
+    return ok, res, st, out
